@@ -73,6 +73,14 @@ type Opaque struct {
 	What string
 }
 
+// LazyRows: contents of a read-only slice of pointer tables; rows are created on first use (shared by all
+// states: the rows are never written, so sharing is sound).
+type LazyRows struct {
+	Elem types.Type
+	Name string
+	Rows map[int64]*Slice
+}
+
 type Tuple []Value
 
 // UntypedConst appears only in spec expressions.
